@@ -19,8 +19,8 @@ from harness.props import compare_common as cc
 MANIFEST = dict(
     category="proof",
     technique="Lean 4 theorems over a hand-written model of the compare engine + differential correspondence with the implementation",
-    text="Lean theorems for the keyed compare with an arbitrary composite key (single/multi field, str or tuple) and no path options: C08_perm_invariant / C08_perm_invariant_lines - if the composite keys are pairwise different within every list (UniqueKeys: also list items are not themselves lists and key fields are scalars), permuting the lists of either operand at any depth of the enclosing trees (PermTree, including keyed lists nested inside records) changes neither the verdict nor the number of differences lines; C08_classification - one keyed level with unique keys equals: the results of the matched pairs, then exactly one self-unique entry per left element whose key is absent on the right and one other-unique entry per right element whose key is absent on the left (every record classified exactly once), C08_classification_lines the same as a count, C08_prefix_independent; counter-example theorems C08_needs_unique_keys_cex, C08_needs_stable_keys_cex show the hypotheses are needed. The statement 'scalar list items are matched by value irrespective of position' is covered by C07_default_exact_partial (multiset equality of non-record items, under NoStrCollision) and executed by evaluator 'scalars'. The model (lean/N0Verif/Model/Compare.lean) follows n0dict.compare/direct_compare, n0list.compare/direct_compare, xpath_match, generate_composite_keys, update_extend and the flag machine branch by branch for the code WITH fix patches C07-a, C08-a, C09-a applied; it is compared with the implementation on generated pairs of trees (verdict, entry sets with rendered paths and values, number of prose lines, exception class) and the statement itself is executed on the implementation with Python-side oracles.",
-    note="UniqueKeys restricts list items to scalars/records (a list nested directly in a list is keyed by its str(), which is not permutation-stable: cex theorem). Exceptions: permutation may change which exception is raised first, so invariance is stated on 'count or exception', not on the exception class.",
+    text="Lean theorems for the keyed compare with an arbitrary composite key (single/multi field, str or tuple) and no path options: C08_perm_invariant / C08_perm_invariant_lines - if the composite keys are pairwise different within every list (UniqueKeys: also list items are not themselves lists and key fields are scalars), permuting the lists of either operand at any depth of the enclosing trees (PermTree, including keyed lists nested inside records) changes neither the verdict nor the number of differences lines; C08_classification - one keyed level with unique keys equals: the results of the matched pairs, then exactly one self-unique entry per left element whose key is absent on the right and one other-unique entry per right element whose key is absent on the left (every record classified exactly once), C08_classification_lines the same as a count, C08_prefix_independent; counter-example theorems C08_needs_unique_keys_cex, C08_needs_stable_keys_cex show the hypotheses are needed. The statement 'scalar list items are matched by value irrespective of position' is covered by C07_default_exact_partial (multiset equality of non-record items, under NoStrCollision) and executed by evaluator 'scalars'. The model (lean/N0Verif/Model/Compare.lean) follows n0dict.compare/direct_compare, n0list.compare/direct_compare, xpath_match, generate_composite_keys, update_extend and the flag machine branch by branch for the code WITH fix patches C07-a, C08-a, C09-a, C07-b, C07-c, C09-b, C10-a applied; it is compared with the implementation on generated pairs of trees (verdict, entry sets with rendered paths and values, number of prose lines, exception class) and the statement itself is executed on the implementation with Python-side oracles.",
+    note="UniqueKeys restricts list items to scalars/records (a list nested directly in a list is keyed by its JSON text, which is not stable under permutation of the inner list: cex theorem). Exceptions: permutation may change which exception is raised first, so invariance is stated on 'count or exception', not on the exception class.",
     design_ref='5/C08',
 )
 
@@ -271,7 +271,7 @@ def run(ctx):
     ctx.evaluate("repeat", rcases, cc.check_repeat)
     rng = ctx.rng("scalars")
     scases = []
-    pool = ["a", "b", "A", 1, 2, 3, 2.5, 0.5, True, False, None, "x y", "é"]
+    pool = ["a", "b", "A", 1, 2, 3, 2.5, 0.5, True, False, None, "x y", "é", "1", "2", "None", "True", "", 1.0, "1.0", 0, "0", "2.5"]
     for _ in range(n // 3):
         xs = [rng.choice(pool) for _ in range(rng.choice([0, 1, 2, 3, 4, 5]))]
         ys = list(xs)
@@ -291,7 +291,7 @@ def run(ctx):
     }
     ctx.extra["assumptions"] = [
         "composite keys are unique within each list (UniqueKeys), also in the keyed lists nested inside records",
-        "trees are converted recursively; the pool of scalar items contains no two values with the same str()",
-        "the model follows the code with fix patches C07-a, C08-a, C09-a applied",
+        "trees are converted recursively; the pool of scalar items holds values of different type with the same str() (1/'1'/1.0/True, None/'None', '') - they are different items",
+        "the model follows the code with fix patches C07-a, C08-a, C09-a, C07-b, C07-c, C09-b, C10-a applied",
     ]
     ctx.extra["trusted_base"] = ["declarative report oracle spec_report of harness/props/compare_common.py"]
